@@ -6331,9 +6331,7 @@ class TensorDictBase(MutableMapping):
 
     def filter_empty_(self):
         """Filters out all empty tensordicts in-place."""
-        for key, val in reversed(
-            list(self.items(True, is_leaf=_NESTED_TENSORS_AS_LISTS, sort=True))
-        ):
+        for key, val in reversed(list(self.items(True, sort=True))):
             if _is_tensor_collection(type(val)) and val.is_empty():
                 del self[key]
         return self
